@@ -112,6 +112,17 @@ PRESERVING = [
     # micro/Y10-e2: chunks from a generator of pages consumed through enumerate
     ('p7-dfu-y10e2', ['C18', 'C19'], [(D, 'def cli_main():', 'def iter_pages(data, page_size):\n    """Yield successive page_size-byte slices of data."""\n    for offset in range(0, len(data), page_size):\n        yield data[offset:offset + page_size]\n\n\ndef cli_main():'),
         (D, '    for page in range(pages):\n        addr_start = 0x08000000\n        addr = addr_start + (page * page_size)\n        code_start = page * page_size\n        code_end = code_start + page_size\n        code = firmware[code_start:code_end]\n', '    for page, code in enumerate(iter_pages(firmware, page_size)):\n        addr_start = 0x08000000\n        addr = addr_start + (page * page_size)\n')]),
+    # explicit open / read / close in try-finally
+    ('p7-dfu-g2', ['C18', 'C19'], [(D, "    with open(args.binary_file, 'rb') as f:\n        firmware = f.read()\n", "    f = open(args.binary_file, 'rb')\n    try:\n        firmware = f.read()\n    finally:\n        f.close()\n")]),
+    # the fit check in a helper ensure_fits(image, page_size, page_count)
+    ('p7-dfu-g3', ['C18', 'C19'], [(D, 'def cli_main():', "def ensure_fits(image, page_size, page_count):\n    capacity = page_size * page_count\n    if len(image) > capacity:\n        raise SystemExit('Firmware file is too large for device')\n\n\ndef cli_main():"),
+        (D, "    if len(firmware) > (page_size * page_count):\n        raise SystemExit('Firmware file is too large for device')\n", '    ensure_fits(firmware, page_size, page_count)\n')]),
+    # divmod result bound to one name and indexed
+    ('p7-dfu-g7', ['C18', 'C19'], [(D, '    pages, rem = divmod(len(firmware), page_size)\n', '    full_and_rest = divmod(len(firmware), page_size)\n    pages = full_and_rest[0]\n    rem = full_and_rest[1]\n')]),
+    # erase / write loops in helpers, KeyboardInterrupt handler around the erase
+    ('p7-dfu-g8', ['C18', 'C19'], [(D, '    # erase flash\n    for page in range(pages):\n        start = 0x08000000\n', "    # erase flash\n    try:\n        erase_all(dev, pages, page_size)\n    except KeyboardInterrupt:\n        raise SystemExit('interrupted while erasing')\n\n    print()\n    write_all(dev, firmware, pages, page_size)\n    print()\n    print('done!')\n\n\ndef erase_all(dev, pages, page_size):\n    for page in range(pages):\n        start = 0x08000000\n"),
+        (D, "            raise SystemExit('error erasing page: {}'.format(STATUS_DESCRIPTION[status]))\n\n    print()\n\n    # write flash\n", "            raise SystemExit('error erasing page: {}'.format(STATUS_DESCRIPTION[status]))\n\n\ndef write_all(dev, firmware, pages, page_size):\n    # write flash\n"),
+        (D, "            raise SystemExit('error writing page: {}'.format(STATUS_DESCRIPTION[status]))\n\n    print()\n    print('done!')\n", "            raise SystemExit('error writing page: {}'.format(STATUS_DESCRIPTION[status]))\n")]),
     # oversize firmware refused through parser.error(..): exit status 2, nothing sent (the message format differs, the property holds)
     ('p7-dfu-parser-error', ['C18', 'C19'], [(D, "        raise SystemExit('Firmware file is too large for device')\n", "        parser.error('Firmware file is too large for device')\n")]),
 ]
@@ -237,11 +248,25 @@ BREAKING = [
         (D, '    for page in range(pages):\n        addr_start = 0x08000000\n        addr = addr_start + (page * page_size)\n        code_start = page * page_size\n        code_end = code_start + page_size\n        code = firmware[code_start:code_end]\n', '    for page, code in enumerate(iter_pages(firmware, page_size)):\n        addr_start = 0x08000000\n        addr = addr_start + (page * page_size)\n')]),
     # parser.error twin: the usage text is printed and the run goes on
     ('c7-dfu-parser-usage-only', ['C19'], [(D, "        raise SystemExit('Firmware file is too large for device')\n", '        parser.print_usage()\n')]),
+    # g3 twin: one byte of slack
+    ('c7-dfu-helper-guard-slack', ['C19', 'C18'], [(D, 'def cli_main():', "def ensure_fits(image, page_size, page_count):\n    capacity = page_size * page_count + 1\n    if len(image) > capacity:\n        raise SystemExit('Firmware file is too large for device')\n\n\ndef cli_main():"),
+        (D, "    if len(firmware) > (page_size * page_count):\n        raise SystemExit('Firmware file is too large for device')\n", '    ensure_fits(firmware, page_size, page_count)\n')]),
+    # g7 twin: quotient and remainder swapped
+    ('c7-dfu-divmod-index-swapped', ['C18'], [(D, '    pages, rem = divmod(len(firmware), page_size)\n', '    full_and_rest = divmod(len(firmware), page_size)\n    pages = full_and_rest[1]\n    rem = full_and_rest[0]\n')]),
+    # g2 twin: capped read
+    ('c7-dfu-explicit-read-capped', ['C19', 'C18'], [(D, "    with open(args.binary_file, 'rb') as f:\n        firmware = f.read()\n", "    f = open(args.binary_file, 'rb')\n    try:\n        firmware = f.read(1 << 20)\n    finally:\n        f.close()\n")]),
+    # g8 twin: the erase helper returns on a device error
+    ('c7-dfu-helper-erase-returns', ['C19'], [(D, '    # erase flash\n    for page in range(pages):\n        start = 0x08000000\n', "    # erase flash\n    try:\n        erase_all(dev, pages, page_size)\n    except KeyboardInterrupt:\n        raise SystemExit('interrupted while erasing')\n\n    print()\n    write_all(dev, firmware, pages, page_size)\n    print()\n    print('done!')\n\n\ndef erase_all(dev, pages, page_size):\n    for page in range(pages):\n        start = 0x08000000\n"),
+        (D, "            raise SystemExit('error erasing page: {}'.format(STATUS_DESCRIPTION[status]))\n\n    print()\n\n    # write flash\n", "            raise SystemExit('error erasing page: {}'.format(STATUS_DESCRIPTION[status]))\n\n\ndef write_all(dev, firmware, pages, page_size):\n    # write flash\n"),
+        (D, "            raise SystemExit('error writing page: {}'.format(STATUS_DESCRIPTION[status]))\n\n    print()\n    print('done!')\n", "            raise SystemExit('error writing page: {}'.format(STATUS_DESCRIPTION[status]))\n"),
+        (D, "            print()\n            raise SystemExit('error erasing page: {}'.format(STATUS_DESCRIPTION[status]))\n", '            print()\n            return\n')]),
     # seeded C18r7m2 (core): the image is stripped after the guard, what is written is not the file
     ('c7-dfu-rstrip-after-guard', ['C18'], [(D, "    print('old size:', len(firmware))\n", "    print('old size:', len(firmware))\n    firmware = firmware.rstrip(b'\\xff')\n")]),
 ]
 
 UNDECIDED = [
+    # g5: the erase address is a running sum (addr += page_size), a loop-carried value
+    ('u7-dfu-running-address', ['C18'], [(D, '    # erase flash\n    for page in range(pages):\n        start = 0x08000000\n        addr = start + (page * page_size)\n', '    # erase flash\n    addr = 0x08000000 - page_size\n    for page in range(pages):\n        addr += page_size\n')]),
     # e9: erase / write loops as `while page < pages` with an explicit counter (not followed)
     ('u7-dfu-while-loops', ['C18'], [(D, '    for page in range(pages):\n        start = 0x08000000\n', '    page = 0\n    while page < pages:\n        start = 0x08000000\n'),
         (D, "            raise SystemExit('error erasing page: {}'.format(STATUS_DESCRIPTION[status]))\n", "            raise SystemExit('error erasing page: {}'.format(STATUS_DESCRIPTION[status]))\n        page += 1\n"),
